@@ -99,7 +99,6 @@ class DAGRunConcurrentManager(DAGRunManagerLike):
     _lock_manager: DAGConcurrentManagerLock = field(init=False)
     _memorization_store: t.Dict[t.Any, t.Any] = field(default_factory=dict)
     _coro_tasks: t.Set[asyncio.Task] = field(default_factory=set)
-    _opened_oneof_children: t.Set[NodeId] = field(default_factory=set)
     _additional_data: t.Dict[NodeId, t.Any] = field(default_factory=dict)
     _alias_run_method: str = 'run'
 
@@ -274,24 +273,11 @@ class DAGRunConcurrentManager(DAGRunManagerLike):
             # its own OneOf and says nothing about the consumers.
             return u not in (self.dag.graph.nodes[v].get(NodeField.oneof_nodes) or ())
 
-        def _filter_node(u: str) -> bool:
-            """
-            Delete nodes with NodeField.is_oneof_child from subgraph_view
-
-            Args:
-                u -  Node
-            """
-            return (
-                not self.dag.graph.nodes[u].get(NodeField.is_oneof_child)
-                or u in self._opened_oneof_children
-            )
-
-        if is_oneof:
-            # The DAG is shared between runs, so the fact that the candidate has been opened is kept in the manager
-            self._opened_oneof_children.add(dest)
-
+        # The candidates of a OneOf do not have to be hidden from the view: the edges to their OneOf are filtered, so
+        # a candidate is a part of somebody else's reduced DAG only if it is an ordinary dependency there as well,
+        # and then it has to be calculated for that consumer whether its OneOf tries it or not.
         return get_connected_subgraph(
-            dag=nx.subgraph_view(self.dag.graph, filter_edge=_filter, filter_node=_filter_node),
+            dag=nx.subgraph_view(self.dag.graph, filter_edge=_filter),
             source=source,
             dest=dest,
             is_recurrent=is_recurrent,
@@ -464,6 +450,12 @@ class DAGRunConcurrentManager(DAGRunManagerLike):
                 if self._is_switch(node_id) or self._is_head_of_oneof(node_id) or dag.is_recurrent
                 else self.dag.graph.predecessors(node_id),
             )
+
+        if self._is_head_of_oneof(node_id):
+            # The candidates are run by the OneOf itself. It must not wait for a candidate which is a part of
+            # the current DAG because somebody else depends on it as well.
+            candidates = self.dag.graph.nodes[node_id][NodeField.oneof_nodes]
+            predecessors = [pred_id for pred_id in predecessors if pred_id not in candidates]
 
         for idx, node_id in enumerate(predecessors):
 
@@ -757,9 +749,9 @@ class DAGRunConcurrentManager(DAGRunManagerLike):
             await self.__unlock_descendants(node_id)
             await self.__unlock_run_method()
 
-            if node_id == dag.dest:
-                logger.debug('The node %s is an output node', node_id)
-                await self.__unlock_itself(node_id)
+            # The node can be the destination of a DAG that did not execute it (a OneOf candidate which is a dependency
+            # of another node as well): whoever waits for the node itself has to be woken up in any case.
+            await self.__unlock_itself(node_id)
 
     async def __unlock_itself(self, node_id: NodeId) -> None:
         """
